@@ -81,6 +81,15 @@ def handle (op : String) (args : List String) : Option String :=
     pure (hexOfBytes j.tmpl ++ " " ++ hexOfBytes (renderScript (valsOf ps) ls) ++ " "
       ++ hexOfBytes (jobScript Gen.shellEscapes j) ++ " " ++ boolStr covered ++ " "
       ++ toksStr (some (expectedToks (givenOf Gen.shellEscapes j) ls)))
+  -- arbitrary template text: cut it into segments; when the segmentation spells the text and is
+  -- well formed, theorem replacer_is_renderScript promises renderScript = the replacer
+  | "wfrender", args => do
+    let j ← parseJob args
+    let ls := segmentText Gen.jobScriptKeys j.tmpl
+    let spelled := templateTextK Gen.jobScriptKeys ls == j.tmpl
+    let wf := spelled && wfTemplate Gen.jobScriptKeys maybeEmptyParams ls
+    pure (boolStr wf ++ " " ++ hexOfBytes (renderScript (valsOf (params Gen.shellEscapes j)) ls)
+      ++ " " ++ hexOfBytes (jobScript Gen.shellEscapes j))
   | "templates", [] => pure (",".intercalate (Gen.jobTemplates.map (·.1)))
   | _, _ => none
 
